@@ -163,7 +163,8 @@ Proof. destruct inv_final as [H _]. exact H. Qed.
 Theorem sim_sets q : 1 <= q -> q < m -> (1 <= k)%nat ->
   (exists l', (1 <= l')%nat /\ (l' <= k)%nat /\ q <= ps l' /\ (forall l'', (1 <= l'')%nat -> (l'' < l')%nat -> ps l'' < q) /\
               nth (idx q) final 0%Q = vlev l' /\ (tauf l' <= valp q)%Q /\ (vlev l' <= valp q)%Q /\
-              (byq = true -> vlev l' = valp (ps l') /\ forall q', 1 <= q' -> q' <= ps l' -> (valp (ps l') <= valp q')%Q)) \/
+              (byq = true -> vlev l' = valp (ps l') /\ forall q', 1 <= q' -> q' <= ps l' -> (valp (ps l') <= valp q')%Q) /\
+              (forall l'', (1 <= l'')%nat -> (l'' < l')%nat -> (valp q < tauf l'')%Q)) \/
   (ps k < q /\ nth (idx q) final 0%Q = init /\ (valp q < tauf k)%Q).
 Proof.
   intros Hq1 Hq2 Hk. destruct inv_final as [_ [Hsp [_ [Heq [_ [Hin Hout]]]]]].
@@ -173,9 +174,11 @@ Proof.
   - left. destruct (Hin q Hq1 Hle) as [l' [A [B [C [D E]]]]]. exists l'. split; [exact A|]. split; [exact B|]. split; [exact C|]. split; [exact D|].
     split; [exact E|]. destruct (ps_spec l') as [[S1 S2] [S3 _]]. destruct S3 as [S3|S3]; [lia|].
     assert (Hv : (valp (ps l') <= valp q)%Q) by (apply Hmono; lia).
-    split; [lra|]. split.
+    split; [lra|]. split; [|split].
     + unfold ElicitSpec.vlev. destruct byq; [exact Hv|lra].
     + intros Hb. unfold ElicitSpec.vlev. rewrite Hb. split; [reflexivity|]. intros q' H1 H2. apply Hmono; lia.
+    + intros l'' H1 H2. specialize (D l'' H1 H2). destruct (ps_spec l'') as [[T1 T2] [_ T4]]. destruct T4 as [T4|T4]; [lia|].
+      pose proof (Hmono (ps l'' + 1) q ltac:(lia) ltac:(lia) ltac:(lia)). lra.
   - right. rewrite <- Esp. split; [lia|]. split; [apply Hout; lia|].
     destruct (ps_spec k) as [[S1 S2] [_ S4]]. rewrite Esp in Hgt. destruct S4 as [S4|S4]; [lia|].
     pose proof (Hmono (ps k + 1) q ltac:(lia) ltac:(lia) ltac:(lia)). lra.
